@@ -75,6 +75,8 @@ def run(ctx):
     c_exhaustive(ctx)
     c_nested_flow(ctx)
     c_module_level_total(ctx)
+    c_expansion_errors_reject(ctx)
+    e_runtime_keeps_positions(ctx)
     d_consumers(ctx)
     d_label_tables(ctx)
     try:
@@ -315,6 +317,65 @@ def c_module_level_total(ctx):
                   "an element that is neither taken (flow, import) nor named as inert (comment, empty line) is rejected with a syntax error" if ok else
                   "the walk over the module-level elements goes on to the next element when no branch names the element's kind: `if ...:` / `while` / `when` at module level is "
                   "dropped silently TOGETHER WITH the flows defined inside it (accepted by the loader, never compiled), and stray module-level statements are ignored", line=l.lineno)
+
+
+RT1 = "nemoguardrails/colang/v1_0/runtime/runtime.py"
+
+
+def e_runtime_keeps_positions(ctx):
+    """Colang 1.0 offsets (_next, _next_else, branch_heads ...) are RELATIVE positions computed by the parser over the element list it returns.  Dropping the first element
+    (the leading `meta`) keeps every offset valid; removing an element from the middle does not - every jump that spans it overshoots (IndexError in slide, or the wrong
+    statement).  Decided: the list that _load_flow_config hands to FlowConfig is the parser's list or a `[k:]` slice of it - never a filtered / rebuilt list."""
+    t = ctx.tree.ast(RT1)
+    fn = find_function(t, "_load_flow_config", "RuntimeV1_0")
+    if fn is None:
+        raise AnalysisError("RuntimeV1_0._load_flow_config not found", anchor=RT1 + "::RuntimeV1_0._load_flow_config")
+    calls = [c for c in ast.walk(fn) if isinstance(c, ast.Call) and src(c.func) == "FlowConfig"]
+    ctx.floor("C12.e.runtime-keeps-positions", RT1, "FlowConfig constructions in _load_flow_config", len(calls), 1)
+    for c in calls:
+        kw = {k.arg: k.value for k in c.keywords}
+        ev = kw.get("elements")
+        name = ev.id if isinstance(ev, ast.Name) else None
+        stores = [a for a in walk_no_nested(fn) if isinstance(a, ast.Assign) and any(isinstance(t_, ast.Name) and t_.id == name for t_ in a.targets)] if name else []
+        bad = []
+        for a in stores:
+            v = a.value
+            is_src = isinstance(v, ast.Subscript) and isinstance(v.slice, ast.Constant) and v.slice.value == "elements"         # flow["elements"]
+            is_tail = isinstance(v, ast.Subscript) and isinstance(v.slice, ast.Slice) and v.slice.upper is None and v.slice.step is None and src(v.value) == name
+            is_get = isinstance(v, ast.Call) and isinstance(v.func, ast.Attribute) and v.func.attr == "get" and v.args and src(v.args[0]) in ("'elements'", '"elements"')
+            if not (is_src or is_tail or is_get):
+                bad.append(a)
+        muts = [m for m in walk_no_nested(fn) if isinstance(m, ast.Call) and isinstance(m.func, ast.Attribute) and m.func.attr in ("remove", "pop", "insert") and src(m.func.value) == name] + \
+               [d for d in walk_no_nested(fn) if isinstance(d, ast.Delete) and any(name and src(t_).startswith(name + "[") for t_ in d.targets)]
+        ok = name is not None and bool(stores) and not bad and not muts
+        w = (bad + muts)[0] if (bad or muts) else c
+        ctx.check("C12.e.runtime-keeps-positions", RT1, "RuntimeV1_0._load_flow_config", "element list handed to FlowConfig", ok,
+                  "the runtime keeps the parser's element list (at most a leading slice is dropped): the relative offsets stay valid" if ok else
+                  "`%s` rebuilds the element list after the parser computed the relative offsets: removing an element from the middle (a `meta` inside an if/while body) makes every "
+                  "jump that spans it overshoot - IndexError in slide or the wrong statement at run time" % first_line(w, 70), line=w.lineno)
+
+
+def c_expansion_errors_reject(ctx):
+    """`no composite construct is left unexpanded`: when an expander raises (unsupported form: `activate (a or b)`, `stop X`) the configuration is REJECTED.  A handler that
+    logs and keeps the statement leaves a composite SpecOp in the compiled flow; the interpreter parks the flow on it for ever.  Every handler around the expansion raises."""
+    mod = ctx.tree.ast(EXP)
+    ee = find_function(mod, "expand_elements")
+    if ee is None:
+        raise AnalysisError("expand_elements not found", anchor=EXP + "::expand_elements")
+    trs = [t_ for t_ in ast.walk(ee) if isinstance(t_, ast.Try)]
+    ctx.floor("C12.c.expansion-errors-reject", EXP, "try statements around the expansion", len(trs), 1)
+    from ..pycfg import CFG
+    cfg = CFG(ee)
+    for t_ in trs:
+        for h in t_.handlers:
+            # every path through the handler ends in a raise
+            first = cfg.node_of(h.body[0]) if h.body else None
+            leaves = first is not None and cfg.exit in cfg.reachable([first], avoid=[cfg.raise_exit])
+            ok = first is not None and not leaves
+            ctx.check("C12.c.expansion-errors-reject", EXP, "expand_elements", "except %s" % (src(h.type) if h.type is not None else "<all>"), ok,
+                      "the handler turns the failure into a ColangSyntaxError (the configuration is rejected)" if ok else
+                      "the handler for `%s` can complete without raising: the statement the expander refused stays in the flow UNEXPANDED and the loader accepts it - the flow is "
+                      "stuck on the composite element at run time, without any error" % (src(h.type) if h.type is not None else "<all>"), line=h.lineno)
 
 
 # ---------------------------------------------------------------------------------
